@@ -100,6 +100,8 @@ def main(argv=None):
     dump_path = frontend.dump(all_roots(), tag='main')
     from . import native
     native.build()
+    if hasattr(m, 'prepare'):
+        m.prepare()
     jobs = m.jobs(tier, seed)
     if a.only:
         jobs = [j for j in jobs if a.only in j]
